@@ -9,17 +9,17 @@ LEAF_NOTE = ("Trusted: Coq 8.16.1 kernel; no axioms (Print Assumptions: closed u
 
 PROTO_NOTE = 'Trusted: Coq 8.16.1 kernel; no axioms; extraction via ExtrOcamlBasic; OCaml glue (ocaml/driver_proto.ml). The protocol model (coq/Client.v: ftp::client as a free-monad state machine over a scripted peer; coq/DataConn.v: the data loops) is hand-written and tied to the code by running the real ftp::client (harness/client_driver.cpp, public API, loopback TCP) against bin/peer.py on generated histories and comparing, per call, outcome, state, command lines seen by the peer, observer/callback/sink logs and descriptors held with the extracted model fed the observed block sizes; a reference expectation written from the RFC tables (bin/scenarios.py) is the property oracle. Modelled, not verified: kernel TCP, Boost.Asio, OpenSSL, unique_ptr scoping (Scope), reply framing (that tie is C01).'
 CLAIMS = {
- 'C11': dict(text='Theorems about ordering and gating in the protocol model: a command line is written inside TLS exactly when the TLS layer of the control socket is up, and nothing can be written between the switch to the TLS socket and the completed handshake; connect sends only the fixed line AUTH TLS before the handshake, stops on a negative answer, and runs the handshake before the login program; a failed handshake ends the call without running the login; the data handshake sits between the accepted transfer command and the data loop; a data stream that ends by an error is never reported complete. PARTIAL: that OpenSSL encrypts, verifies chains and reports a missing close-notify is runtime behaviour, observed through the raw bytes the peer logs ahead of its TLS engine (first record after 234 and on every data connection is a handshake record; marker strings never appear in clear).', design='4/C11', note=PROTO_NOTE, technique='Coq proof (gating lemmas on do_send / handshake primitives, program structure) + differential correspondence with raw-byte inspection at the peer'),
- 'C13': dict(text='Theorems: a non-graceful disconnect from ANY world writes no command and ends disconnected, plain and without TLS state whether it returns or throws; a new connection starts plain, without session and with only the new greeting to read whatever the old buffer held; receiving 421 closes the connection; graceful disconnect = QUIT, its reply, then the same release. The tie: reconnect histories whose first session ends by QUIT, drop, 421, peer close, peer reset, unread replies, a failed handshake or a failing transfer, plain and TLS.', design='4/C13', note=PROTO_NOTE, technique='Coq proof (case analysis on the disconnect / connect primitives for arbitrary worlds) + differential correspondence on reconnect histories'),
- 'C18': dict(text="Theorems on the abstract TLS dataflow: every data handshake offers the control connection's current session exactly when resumption is configured; that session is the fresh one of the latest successful control handshake and is untouched by command exchanges; no call changes the TLS configuration (same context). PARTIAL: OpenSSL's session semantics are outside the model - the peer's TLS engine reports session_reused per data connection (own session cache per control connection); TLS 1.3 single-use tickets are a recorded KNOWN-FINDING.", design='4/C18', note=PROTO_NOTE, technique='Coq proof (dataflow of the session identifier; generic induction for the configuration) + session_reused observed by the scripted peer'),
- 'C02': dict(text="Theorems: the command/reply step consumes exactly the peer's reaction to that command and leaves nothing unread (every call is built from it); simple calls, TYPE and rename return exactly their own replies and keep the session in step; induction over histories of simple calls; 120-then-220 is read by connect and logout. PARTIAL: transfers and ABOR accounting are decided by the correspondence and the lockstep oracle (unique marks in reply texts); two ABOR orderings are recorded KNOWN-FINDINGs (refuted in Coq by a vm_compute witness).", design='4/C02', note=PROTO_NOTE, technique='Coq proof (process_command step lemma, induction over histories) + differential correspondence with reply marks as ground truth'),
- 'C03': dict(text='Theorems about the loop of data_connection::recv for every payload and every segmentation: a completed binary download hands the sink exactly the concatenation of the segments, flushes once after the last byte; errors are reported without flush; ASCII variant = from_crlf. PARTIAL: TCP/TLS delivery (in order, once) is assumed; exercised by transfers of the boundary sizes with several segmentation styles, all four methods, IPv4/IPv6.', design='4/C03', note=PROTO_NOTE, technique='Coq proof (induction over segments) + differential correspondence on real loopback transfers'),
- 'C04': dict(text="Theorems about the loop of data_connection::send for every chunking of the source: bytes written = concatenation of the chunks (binary) / to_crlf (ASCII); the program order 'close the data connection, then await the completion reply' is fixed in finish_transfer. PARTIAL: the kernel side of write/close is assumed; the peer sends the completion reply only after it saw end-of-file, so a client that waited first would block.", design='4/C04', note=PROTO_NOTE, technique='Coq proof (induction over blocks; composition with the ASCII theorem) + differential correspondence'),
- 'C07': dict(text='Theorem: refusal at EPSV/PASV for every verb, path, sink/source/callback and script tail returns exactly that reply, emits no sink/source/callback event, opens no data socket and leaves the session in step; no data socket or listener survives ANY call (all paths). PARTIAL: refusal at the transfer command and in the active modes is decided by the correspondence (every negative code x step x operation x method).', design='4/C07', note=PROTO_NOTE, technique='Coq proof (symbolic run of the refusal path, scope bracket) + differential correspondence'),
+ 'C11': dict(text='Theorems about ordering and gating in the protocol model: a command line is written inside TLS exactly when the TLS layer of the control socket is up, and nothing can be written between the switch to the TLS socket and the completed handshake; connect sends only the fixed line AUTH TLS before the handshake, stops on a negative answer, and runs the handshake before the login program; a failed handshake ends the call without running the login; the data handshake sits between the accepted transfer command and the data loop; a data stream that ends by an error is never reported complete; the full trace of connect with a TLS context (AUTH TLS the only clear-text line, socket switch and handshake right after its positive reply) and of a download over TLS (wrap after acceptance, close-notify before close). PARTIAL: that OpenSSL encrypts, verifies chains and reports a missing close-notify is runtime behaviour, observed through the raw bytes the peer logs ahead of its TLS engine (first record after 234 and on every data connection is a handshake record; marker strings never appear in clear).', design='4/C11', note=PROTO_NOTE, technique='Coq proof (gating lemmas on do_send / handshake primitives, program structure) + differential correspondence with raw-byte inspection at the peer'),
+ 'C13': dict(text='Theorems: a non-graceful disconnect from ANY world writes no command and ends disconnected, plain and without TLS state whether it returns or throws; a new connection starts plain, without session and with only the new greeting to read whatever the old buffer held; receiving 421 closes the connection; graceful disconnect = QUIT, its reply, then the same release; connect from a disconnected client reads and returns the greeting and starts plain and in step. The tie: reconnect histories whose first session ends by QUIT, drop, 421, peer close, peer reset, unread replies, a failed handshake or a failing transfer, plain and TLS.', design='4/C13', note=PROTO_NOTE, technique='Coq proof (case analysis on the disconnect / connect primitives for arbitrary worlds) + differential correspondence on reconnect histories'),
+ 'C18': dict(text="Theorems on the abstract TLS dataflow: every data handshake offers the control connection's current session exactly when resumption is configured; that session is the fresh one of the latest successful control handshake and is untouched by command exchanges; no call changes the TLS configuration (same context); in a whole download over TLS the data handshake offers the control session exactly when resumption is on. PARTIAL: OpenSSL's session semantics are outside the model - the peer's TLS engine reports session_reused per data connection (own session cache per control connection); TLS 1.3 single-use tickets are a recorded KNOWN-FINDING.", design='4/C18', note=PROTO_NOTE, technique='Coq proof (dataflow of the session identifier; generic induction for the configuration) + session_reused observed by the scripted peer'),
+ 'C02': dict(text="Theorems: the command/reply step consumes exactly the peer's reaction to that command and leaves nothing unread (every call is built from it); simple calls, TYPE and rename return exactly their own replies and keep the session in step; induction over histories of simple calls; 120-then-220 is read by connect and logout; whole downloads, uploads and listings in the passive modes, the 120+220 connect and a cancelled download answered 426+226 return exactly their own replies and leave the session in step (symbolic execution of the whole call, for every payload, segmentation and both transfer types). PARTIAL: transfers in the active modes / under TLS / with the completion reply written together with the preliminary one, and the other ABOR orders, are decided by the correspondence and the lockstep oracle (unique marks in reply texts); two ABOR orderings are recorded KNOWN-FINDINGs (refuted in Coq by a vm_compute witness).", design='4/C02', note=PROTO_NOTE, technique='Coq proof (process_command step lemma, induction over histories) + differential correspondence with reply marks as ground truth'),
+ 'C03': dict(text='Theorems about the loop of data_connection::recv for every payload and every segmentation: a completed binary download hands the sink exactly the concatenation of the segments, flushes once after the last byte; errors are reported without flush; ASCII variant = from_crlf; end to end on the protocol model (passive modes): the whole download call hands the sink exactly the payload (binary) / from_crlf of it (ASCII), returns its three replies, makes one data connection to the parsed endpoint and closes it. PARTIAL: TCP/TLS delivery (in order, once) is assumed; exercised by transfers of the boundary sizes with several segmentation styles, all four methods, IPv4/IPv6.', design='4/C03', note=PROTO_NOTE, technique='Coq proof (induction over segments) + differential correspondence on real loopback transfers'),
+ 'C04': dict(text="Theorems about the loop of data_connection::send for every chunking of the source: bytes written = concatenation of what the source hands out before its first empty read (binary) / to_crlf (ASCII); end to end on the protocol model (passive modes, STOR/STOU/APPE); the program order 'close the data connection, then await the completion reply' is fixed in finish_transfer. PARTIAL: the kernel side of write/close is assumed; the peer sends the completion reply only after it saw end-of-file, so a client that waited first would block.", design='4/C04', note=PROTO_NOTE, technique='Coq proof (induction over blocks; composition with the ASCII theorem) + differential correspondence'),
+ 'C07': dict(text='Theorem: refusal at EPSV/PASV for every verb, path, sink/source/callback and script tail returns exactly that reply, emits no sink/source/callback event, opens no data socket and leaves the session in step; the same for refusal at the transfer command itself (passive and active modes) and at EPRT/PORT (listener closed); no data socket or listener survives ANY call (all paths). The correspondence covers every negative code x step x operation x method x plain/TLS.', design='4/C07', note=PROTO_NOTE, technique='Coq proof (symbolic run of the refusal path, scope bracket) + differential correspondence'),
  'C09': dict(text='Theorems for every API call, world and script: every command line written is free of CR/LF (by a generic decomposition of everything a program adds to the trace, proved by induction over programs); a caller text with CR or LF makes the call throw before any byte or event.', design='4/C09', note=PROTO_NOTE, technique='Coq proof (induction over the free monad of operations) + differential correspondence on the raw bytes the peer receives'),
  'C10': dict(text='Theorems: simple calls write exactly their one line and return its reply; TYPE changes the reported type exactly on a positive reply; rename sends RNTO exactly after 350; login exchanges exactly the lines of the reference table (USER; PASS exactly after 331; stop at the first negative reply; PBSZ 0 / PROT P with TLS; TYPE for the configured type) for every reply at every step, returns exactly the replies received and stays in step. PARTIAL: the transfer verbs are fixed by the programs of Client.v; their agreement with the reference table is decided by the correspondence.', design='4/C10', note=PROTO_NOTE, technique='Coq proof (process_command step lemma) + differential correspondence against the reference command table'),
- 'C12': dict(text='Theorems for every payload, segmentation/chunking and poll-answer sequence, both directions and both types: cancelled at the first poll => nothing else happens; otherwise begin once, end once at the end, notify sums to the bytes moved, no block after the first true poll; the cancel path sends ABOR, reads a second reply after 426 and closes the data socket without graceful shutdown.', design='4/C12', note=PROTO_NOTE, technique='Coq proof (induction over blocks with the callback as an oracle) + differential correspondence with recording callbacks'),
- 'C14': dict(text='Theorem for every program, world and script: what a call adds to the trace decomposes into actions such that every observer sees exactly the transcript (each event as many times as it is registered, none when removed), requests before the line is written, replies after they are read, in wire order; add appends, remove drops all registrations.', design='4/C14', note=PROTO_NOTE, technique='Coq proof (induction over the free monad of operations) + differential correspondence with recording observers'),
+ 'C12': dict(text='Theorems for every payload, segmentation/chunking and poll-answer sequence, both directions and both types: cancelled at the first poll => nothing else happens; otherwise begin once, end once at the end, notify sums to the bytes moved, no block after the first true poll; the cancel path sends ABOR, reads a second reply after 426 and closes the data socket without graceful shutdown; a whole cancelled download (passive modes) returns the replies received so far followed by 426 and the ABOR reply and stays in step.', design='4/C12', note=PROTO_NOTE, technique='Coq proof (induction over blocks with the callback as an oracle) + differential correspondence with recording callbacks'),
+ 'C14': dict(text='Theorem for every program, world and script: what a call adds to the trace decomposes into actions such that every observer sees exactly the transcript (each event as many times as it is registered, none when removed), requests before the line is written, replies after they are read, in wire order; add appends, remove drops all registrations; a whole listing tells every observer requests, replies and the listing text in wire order.', design='4/C14', note=PROTO_NOTE, technique='Coq proof (induction over the free monad of operations) + differential correspondence with recording observers'),
  'C17': dict(text='Theorem for every history, configuration and script: after every call (returned, thrown or blocked) no data socket and no listener is held, the control socket exactly while connected. The tie to descriptors is the correspondence (/proc/self/fd after every call and after destruction).', design='4/C17', note=PROTO_NOTE, technique='Coq proof (scope bracket + no-data-primitive induction) + descriptor accounting in the differential runs'),
  "C20": dict(text="Theorems about a model of command_handler / cmdline_interface::run / main on top of the protocol model, for every input script, local file system and peer script: the run ends with the success status and only at exit / end of input (an invalid line, a cmdline_exception and an ftp_exception are printed and the loop goes on); a connection-needing command given while disconnected answers 'Connection is not open.' and does nothing else (no library call, no prompt, no file access); get refuses an existing local file without touching it, touches no other local file whatever happens, and removes the file it created when the replies are not positive; after a library error the handler has left the client disconnected with a plain socket. PARTIAL: the local file system is a finite map (regular files, names up to 255 bytes; directories, symlinks, permissions, NUL in names, signals and terminal handling are not modelled); that the real process exits with status 0 and leaves every other file alone is observed on the real binary.", design="4/C20", note="Trusted: Coq 8.16.1 kernel; no axioms; extraction via ExtrOcamlBasic; OCaml glue (ocaml/driver_proto.ml run_app). The model (coq/App.v) is hand-written and tied to the code by piping generated input scripts into the REAL cmdline binary (app/cmdline/src/*.cpp + the library, built from /repo's working tree) in a scratch directory against bin/peer.py and comparing exit status, stdout (texts of ftp_exception opaque), the final working directory and the command lines the peer saw with the extracted model. Modelled, not verified: libstdc++ iostream/filesystem, the kernel.", technique="Coq proof (case analysis on the handler, induction over the main loop's fuel) + differential correspondence with the real binary as a subprocess"),
  "C15": dict(text="Theorems over all codes and all reply sequences (classes partition, aggregate positive iff non-empty and all "
